@@ -11,7 +11,7 @@
 #include <stdlib.h>
 
 #define MAXBLK 8300
-static uint8_t KEYS[2][48];
+static uint8_t KEYS[4][48];     /* 0,1: the key alphabet; 2,3: scratch for the re-key sequences */
 static uint8_t in_[MAXBLK * 16 + 64] __attribute__((aligned(32))), out_[3][MAXBLK * 16 + 64] __attribute__((aligned(32))), exp_[MAXBLK * 16 + 64], tw_[MAXBLK * 8 + 64] __attribute__((aligned(32))), tmp_[MAXBLK * 16 + 64] __attribute__((aligned(32)));
 
 typedef struct { Cipher c; int klen, rounds, mode, ki; } KeyCfg;
@@ -236,6 +236,48 @@ static void c07_bad_size(const KeyCfg *k, int be, int nbytes, int dir)
     par_cleanup(k->c, &o);
 }
 
+/* Re-keying one object (one case): see run_c07 */
+static void c07_rekey(int c, int be, int a, int b2, int rel)
+{
+    int bs = cipher_bs((Cipher)c), nb = par_batch((Cipher)c, be) / bs + 3;
+    ParObj o; KeyCfg k1, k2; int step, d2; char cd[160], sig[160]; size_t n = (size_t)nb * (size_t)bs;
+    memset(&k1, 0, sizeof(k1)); memset(&k2, 0, sizeof(k2));
+    k1.c = k2.c = (Cipher)c; k1.ki = 2; k2.ki = 3;
+    if (c == CK_MANTIS) { k1.klen = k2.klen = 16; k1.rounds = (a & 1) ? 8 : 5; k1.mode = a >> 1; k2.rounds = (b2 & 1) ? 8 : 5; k2.mode = b2 >> 1; if (rel == 2) return; }
+    else { k1.klen = (a + 1) * bs; k2.klen = (b2 + 1) * bs; k1.rounds = k2.rounds = 5; }
+    lcg_fill(KEYS[2], 48, 5100);
+    if (rel == 0) lcg_fill(KEYS[3], 48, 5101);
+    else if (rel == 1) memcpy(KEYS[3], KEYS[2], 48);
+    else { memcpy(KEYS[3], KEYS[2], 48); memset(KEYS[3] + k1.klen, 0, (size_t)(48 - k1.klen)); }
+    arena_reset(); memset(&o, 0, sizeof(o));
+    snprintf(cd, sizeof(cd), "c07rekey %d %d %d %d %d", c, be, a, b2, rel);
+    if (guard_enter("C07/rekey", cd)) return;
+    if (!par_init((Cipher)c, be, &o)) engine_error("c07 rekey: init failed");
+    for (step = 0; step < 2; ++step) {
+        const KeyCfg *k = step ? &k2 : &k1;
+        int rk = par_set_key((Cipher)c, &o, KEYS[k->ki], (unsigned)k->klen, (unsigned)k->rounds, k->mode ? MANTIS_DECRYPT : MANTIS_ENCRYPT);
+        for (d2 = 0; d2 < (c == CK_MANTIS ? 1 : 2); ++d2) {
+            int r;
+            fill_data(in_, n, 1 + step, bs); fill_tweaks(tw_, nb, step + a, 5200);
+            single_blocks(k, d2, in_, tw_, exp_, nb);
+            memset(out_[0], 0xEE, n + 16);
+            r = par_crypt((Cipher)c, &o, out_[0], in_, tw_, n, d2);
+            ++g_cnt.evaluations;
+            if (rk != 1 || r != 1 || memcmp(out_[0], exp_, n) != 0) {
+                size_t d = 0; while (d < n && out_[0][d] == exp_[d]) ++d;
+                snprintf(sig, sizeof(sig), "C07/%s/%s/after-%s", cipher_name((Cipher)c), be_name(be), step ? "re-key" : "first-key");
+                violation(sig, cd, "set_key #%d (len %d rounds %d mode %d, %s) returned %d; %s of %d blocks returned %d and differs from the single-block functions under that key at byte %zu",
+                          step + 1, k->klen, k->rounds, k->mode, rel == 0 ? "unrelated key" : (rel == 1 ? "same key bytes" : "first key followed by zeros"), rk,
+                          d2 ? "decrypt" : "encrypt", nb, r, d);
+                step = 2; break;
+            }
+        }
+    }
+    distinct_add_u64(fnv1a(cd, strlen(cd), 107));
+    par_cleanup((Cipher)c, &o);
+    guard_leave();
+}
+
 static void run_c07(void)
 {
     int c, ki, nk, be, nblk, dir, fam, ip, job = 0;
@@ -245,6 +287,8 @@ static void run_c07(void)
         g_opts.nshards = 1; g_opts.shard = 0;
         if (sscanf(g_opts.replay, "c07 %d %d %d %d %d %d %d %d %d %d", &cc, &k.klen, &k.rounds, &k.mode, &k.ki, &b, &n, &d, &f, &i2) == 10) {
             k.c = (Cipher)cc; c07_case_g(&k, b, n, d, f, i2);
+        } else if (sscanf(g_opts.replay, "c07rekey %d %d %d %d %d", &cc, &b, &n, &d, &f) == 5) {
+            c07_rekey(cc, b, n, d, f);
         } else if (sscanf(g_opts.replay, "c07s %d %d %d %d %d %d %d", &cc, &k.klen, &k.rounds, &k.mode, &k.ki, &b, &d) == 7) {
             k.c = (Cipher)cc; c07_sweep(&k, b, d);
         } else if (sscanf(g_opts.replay, "c07b %d %d %d %d %d %d %d %d", &cc, &k.klen, &k.rounds, &k.mode, &k.ki, &b, &n, &d) == 8) {
@@ -283,6 +327,15 @@ static void run_c07(void)
                     sample_add("%s on %s: block counts 0..%d x {enc,dec} x data families x {in-place, out-of-place} vs single-block calls", kd, be_name(be), 3 * maxP + 1);
                 }
             }
+    }
+    /* Re-keying one object: every ordered pair of key configurations on the same parallel object, with
+     * unrelated key bytes, the same bytes at another length, and the first key followed by zeros (Mantis:
+     * every pair of (rounds, mode) with the same and with another key); after each set_key one batch plus
+     * three blocks is compared with the single-block functions under the key that is now in force. */
+    for (c = 0; c < 3; ++c) for (be = 0; be <= cipher_max_be((Cipher)c); ++be) {
+        int a, b2, rel, na = c == CK_MANTIS ? 4 : 3;
+        if ((job++) % g_opts.nshards != g_opts.shard) continue;
+        for (a = 0; a < na; ++a) for (b2 = 0; b2 < na; ++b2) for (rel = 0; rel < 3; ++rel) c07_rekey(c, be, a, b2, rel);
     }
 }
 
